@@ -124,6 +124,9 @@ func batchWorld(r *R) {
 	cs := &Calls{r: r}
 	delivered := 0 // number of source items received in batches so far
 	var lastDeliveredAt int64
+	type keptBatch struct{ got, want []int }
+	var kept []keptBatch
+	postBatch := func() {}
 	var terminal error
 	consumerDone := false
 	var closeCall *Call
@@ -157,6 +160,14 @@ func batchWorld(r *R) {
 				ctx = PreCancelled(root, fmt.Sprintf("next%d", i))
 				r.Fault("ctx_precancelled")
 			}
+			postBatch() // the consumer's own writes to the batch it got last time
+			postBatch = func() {}
+			for _, kb := range kept {
+				if kb.got != nil && fmt.Sprint(kb.got) != fmt.Sprint(kb.want) {
+					r.Violate("C11", "delivered-batch-changed-later", "a batch that had been handed out as %v now reads %v", kb.want, kb.got)
+					return
+				}
+			}
 			c := cs.Begin("consumer", "Next", i, ctx)
 			b, err := s.Next(ctx.C)
 			cs.End(c, len(b), err == nil, err)
@@ -187,6 +198,26 @@ func batchWorld(r *R) {
 					if delivered+j >= len(items) || x != items[delivered+j] {
 						r.Violate("C11", "not-a-prefix", "batch %v does not continue the source sequence at position %d (source %v)", b, delivered, items)
 						return
+					}
+				}
+				// The batch now belongs to the consumer: it may extend and overwrite it. Nothing the
+				// library hands out later may be affected by that, and nothing it does later may
+				// change what was handed out.
+				kept = append(kept, keptBatch{got: b, want: append([]int(nil), b...)})
+				if ownMode := r.Choose(3, "consumer-writes-batch"); ownMode != 0 {
+					r.Probe("consumer-extends-its-batch")
+					kb := &kept[len(kept)-1]
+					postBatch = func() { // (once this batch has been judged)
+						ext := append(b, -7, -8, -9) // into spare capacity, if there is any
+						for q := range ext[len(b):] {
+							ext[len(b)+q] = -7 - q
+						}
+						if ownMode == 2 {
+							kb.got = nil // and scribbles over the batch itself
+							for q := range b {
+								b[q] = -100 - q
+							}
+						}
 					}
 				}
 				first := delivered
